@@ -6,6 +6,7 @@
     parse_F(Encoder_F(T, default_dialect=D).encode(v)) ~ BasicEncoder(T, default_dialect=D).encode(v), decoder dually.
 """
 import datetime
+import uuid
 import itertools
 from dataclasses import dataclass, field
 from typing import List, NamedTuple, Optional
@@ -152,11 +153,33 @@ class T13:
     o: Optional[int] = None
     df: int = 5
     b: bytes = b"\x00\xffabc"          # native in msgpack whatever user dialect is merged on top of the format dialect
+    u: uuid.UUID = uuid.UUID("12345678-1234-5678-1234-567812345678")   # the orjson dialect has its own entry for UUID
+
+
+class _RevUUID:
+    """Built lazily: a class-form SerializationStrategy (an object, not a dict of callables)."""
+    obj = None
+
+    @classmethod
+    def get(cls):
+        if cls.obj is None:
+            from mashumaro.types import SerializationStrategy
+
+            class RevUUID(SerializationStrategy):
+                def serialize(self, value):
+                    return value.hex[::-1]
+
+                def deserialize(self, value):
+                    return uuid.UUID(hex=value[::-1])
+            cls.obj = RevUUID
+        return cls.obj()
+
 
 
 OPTIONS = {
     "serialization_strategy": lambda: {datetime.date: {"serialize": lambda v: v.strftime("%Y/%m/%d"),
                                                        "deserialize": lambda s: datetime.datetime.strptime(s, "%Y/%m/%d").date()}},
+    "serialization_strategy_obj": lambda: {uuid.UUID: _RevUUID.get()},
     "serialize_by_alias": lambda: True,
     "namedtuple_as_dict": lambda: True,
     "omit_none": lambda: True,
@@ -181,19 +204,36 @@ def _bytes_as_base64(x):
     return x
 
 
+def _ns(keys):
+    """Class namespace of a Dialect carrying the named options (the two strategy options share one attribute)."""
+    out = {}
+    for k in keys:
+        if k.startswith("serialization_strategy"):
+            out.setdefault("serialization_strategy", {}).update(OPTIONS[k]())
+        else:
+            out[k] = OPTIONS[k]()
+    return out
+
+
 def run_codec(unit):
     from mashumaro.dialect import Dialect
     _, fmt, sub = unit[:3]
     style = unit[3] if len(unit) > 3 else "direct"
     res = core.UnitResult()
+    both_strategies = "serialization_strategy" in sub and "serialization_strategy_obj" in sub
+    if style != "direct" and both_strategies:
+        # a child's serialization_strategy replaces its parent's attribute as a whole (plain class attribute lookup):
+        # written on two levels the two entries are not one dialect
+        res.counters["split_strategy_units_skipped"] += 1
+        return res
     if not sub:
         D = None
     elif style == "direct":
-        D = type("UD", (Dialect,), {k: OPTIONS[k]() for k in sub})
+        D = type("UD", (Dialect,), _ns(sub))
     else:
         up = sub if style == "inherited" else sub[:1]
-        Parent = type("House", (Dialect,), {k: OPTIONS[k]() for k in up})
-        D = type("UD", (Parent,), {k: OPTIONS[k]() for k in sub if k not in up})
+        Parent = type("House", (Dialect,), _ns(up))
+        D = type("UD", (Parent,), _ns([k for k in sub if k not in up]))
     Enc, Dec = formats.codecs(fmt)
     BEnc, BDec = formats.codecs("basic")
     try:
@@ -212,7 +252,7 @@ def run_codec(unit):
             basic = benc.encode(mk())
             if style != "direct":
                 # anchor: where the options are written must not matter to the basic codec either
-                direct = BEnc(T13, default_dialect=type("UD", (Dialect,), {k: OPTIONS[k]() for k in sub})).encode(mk())
+                direct = BEnc(T13, default_dialect=type("UD", (Dialect,), _ns(sub))).encode(mk())
                 if direct != basic:
                     res.violation(f"codec-dialect-neq|basic|{sub}|{style}|encode", "codec-dialect-neq", "encode",
                                   dict(unit=unit, value=vi), f"value={v!r} basic codec: options on the dialect {direct!r} vs {style} {basic!r}")
@@ -243,6 +283,40 @@ def run_codec(unit):
             res.outcomes["exc:" + type(e).__name__] += 1
             res.violation(f"codec-raised|{fmt}|{sub}|{style}|{type(e).__name__}", "codec-raised", type(e).__name__,
                           dict(unit=unit, value=vi), repr(e)[:300])
+    # one Dialect class handed to the codecs of TWO formats (every ordered pair): what the first format's codecs did with
+    # it must not change what this format's codecs do - same documents, same decoded values as above
+    if D is not None and style == "direct":
+        try:
+            first_docs = [enc.encode(mk()) for mk in VALUES]
+            first_back = [dec.decode(d) for d in first_docs]
+        except Exception:   # noqa: BLE001
+            first_docs = None
+        for other in formats.FORMATS:
+            if other == fmt or first_docs is None:
+                continue
+            res.cases += 1
+            res.transitions += 4 + 2 * len(VALUES)
+            try:
+                D2 = type("UD", (Dialect,), _ns(sub))
+                OEnc, ODec = formats.codecs(other)
+                OEnc(T13, default_dialect=D2), ODec(T13, default_dialect=D2)
+                enc2, dec2 = Enc(T13, default_dialect=D2), Dec(T13, default_dialect=D2)
+                for vi, mk in enumerate(VALUES):
+                    doc2 = enc2.encode(mk())
+                    back = dec2.decode(first_docs[vi])
+                    if doc2 != first_docs[vi] or back != first_back[vi]:
+                        res.outcomes["after-other-format-neq"] += 1
+                        res.violation(f"codec-dialect-shared|{fmt}|{sub}|after-{other}", "codec-dialect-shared", "neq",
+                                      dict(unit=unit, value=vi),
+                                      f"dialect first given to the {other} codecs: {fmt} document {doc2!r:.200} (alone: {first_docs[vi]!r:.200}) decoded {back!r:.200} (alone: {first_back[vi]!r:.200})")
+                        break
+                else:
+                    res.outcomes["after-other-format-ok"] += 1
+                    res.nontrivial += 1
+            except Exception as e:   # noqa: BLE001
+                res.outcomes["exc:" + type(e).__name__] += 1
+                res.violation(f"codec-dialect-shared|{fmt}|{sub}|after-{other}|{type(e).__name__}", "codec-dialect-shared", type(e).__name__,
+                              dict(unit=unit, value=0), f"dialect first given to the {other} codecs, then {fmt}: {e!r:.300}")
     res.sample(dict(format=fmt, dialect_options=list(sub), document=repr(enc.encode(VALUES[0]()))[:120]))
     res.states += 1
     return res
